@@ -126,7 +126,7 @@ def c06(backends, rng):
 
 
 def run(which, rep, rng):
-    backends = BACKENDS if rep.tier == 'thorough' else ['t', rng.choice(BACKENDS[1:]), 'mp']
+    backends = BACKENDS          # every back end in both tiers: a change may concern a single adapter
     fn = {'C04': c04, 'C05': c05, 'C06': c06}[which]
     t0 = time.time()
     fails, runs = fn(backends, rng)
